@@ -319,3 +319,34 @@ impl DisambiguatorMap {
         self.map.is_empty()
     }
 }
+
+//@ob id=K-TS-9 kind=C props=C01,C06,C07 timeout=900 fn=IngredientImpl::tracked_field,IngredientImpl::lock_fields,ZalsaLocal::report_tracked_read_simple
+//@ pre: a tracked struct created or validated in the current revision (read lock already at the current revision, or taken now), with any durability and any revision of its tracked field; an executing query reads the tracked field
+//@ post: the stored fields come back; the reading query's stamp becomes exactly (the struct's durability, the **field's** revision) - i.e. min / max with the fresh frame's (NEVER_CHANGE, R1); the slot is read-locked in the current revision afterwards
+#[cfg_attr(kani, kani::proof)]
+#[cfg_attr(kani, kani::unwind(6))]
+#[cfg_attr(salsa_verif_replay, test)]
+fn k_ts_9_tracked_field_read_reports_field_stamp() {
+    let mut z = crate::zalsa::verif::bare_zalsa();
+    z.runtime_mut().new_revision();
+    let cur = z.current_revision();
+    let local = ZalsaLocal::new();
+    let ing = IngredientImpl::<KT>::verif_new(IngredientIndex::new(0));
+    let d = vk::any_durability();
+    let fr = vk::any_revision();
+    vk::assume(fr <= cur);
+    let locked_now: bool = vk::any();
+    let id = alloc_struct(&z, &ing, Some(if locked_now { cur } else { Revision::start() }), d, fr);
+    let g = local.push_query(vk::key(7, 1));
+    let f = ing.tracked_field(&z, &local, KTStruct(id), 0);
+    assert!(*f == (1, 2));
+    let (_, stamp) = local.active_query().unwrap();
+    assert!(stamp.durability == d);
+    assert!(stamp.changed_at == fr);
+    assert!(value_of(&z, id).updated_at.load() == Some(cur));
+    vcover!();
+    std::mem::forget(g);
+    std::mem::forget(local);
+    std::mem::forget(z);
+    std::mem::forget(ing);
+}
